@@ -149,7 +149,11 @@ func (C12) Generate(c *Ctx, r *Rand, index int) *Scenario {
 		sc.Files = append(sc.Files, File{Name: "extra.yaml", Docs: []string{g.Doc(DocID(r, 1, 0)).YAML()}, Mode: 0644})
 		argv = append(argv, "extra.yaml")
 	}
-	if !frontMatter && rs.Chance(1, 12) {
+	if !frontMatter && rs.Chance(1, 15) {
+		// the target has a second hard link: the other name must keep the old content (yq replaces the file, it does not write into it)
+		sc.Files = append(sc.Files, File{Name: "other-link.yaml", Hardlink: target})
+		sc.Meta["hardlinked"] = true
+	} else if !frontMatter && rs.Chance(1, 12) {
 		// the target is reached through a relative symbolic link from another directory, and a file with
 		// the name of the link's destination also exists where yq is started: only the named path may change
 		linkDest := "base.yaml"
@@ -451,6 +455,31 @@ func (C12) Judge(c *Ctx, sc *Scenario) []Violation {
 			path = "inplace" // the last resort: the target is overwritten in place
 		}
 	}
+	// was the sibling route (temp next to the target + rename) really unavailable when the target was overwritten in place?
+	route := "open"
+	for _, e := range out.Events {
+		if (e.Site == "copy.sibling.create" || e.Site == "copy.sibling.rename") && strings.HasPrefix(e.Decision, "error:") {
+			route = "closed"
+		}
+	}
+	if strings.HasPrefix(sc.Strace, "renameat") {
+		route = "closed"
+	}
+	hasSiblingHooks := false
+	for _, e := range out.Events {
+		if strings.HasPrefix(e.Site, "copy.sibling.") {
+			hasSiblingHooks = true
+		}
+	}
+	if len(out.Events) == 0 {
+		for _, f := range sc.Plan.Steps {
+			if f.Action == "error" && (f.Site == "copy.sibling.create" || f.Site == "copy.sibling.rename") {
+				route = "closed"
+			}
+		}
+	} else if !hasSiblingHooks {
+		route = "none" // a tree without the sibling route
+	}
 	faults := faultTags(out)
 	if sc.Strace != "" && !strings.HasPrefix(sc.Strace, "renameat") {
 		// faults injected at the system-call boundary leave no hook event
@@ -516,7 +545,11 @@ func (C12) Judge(c *Ctx, sc *Scenario) []Violation {
 	killed := out.Signal == 9
 	var vs []Violation
 	add := func(oracle, detail, msg string) {
-		sig := fmt.Sprintf("%s %s path=%s fault=%s", oracle, detail, path, faults)
+		pathTag := path
+		if path == "inplace" {
+			pathTag = "inplace route=" + route
+		}
+		sig := fmt.Sprintf("%s %s path=%s fault=%s", oracle, detail, pathTag, faults)
 		vs = append(vs, Violation{Prop: "C12", Oracle: oracle, Sig: sig, Class: oracle + " " + detail + " path=" + path, Msg: msg + " | argv=" + strings.Join(sc.Argv, " "),
 			// strace counts `when=N` per thread and the Go runtime decides which thread issues a system call:
 			// the observed outcome stands, but which call is hit may differ in a replay
@@ -591,6 +624,18 @@ func (C12) Judge(c *Ctx, sc *Scenario) []Violation {
 	}
 	// O12.5 frame: nothing but the target changes (other inputs, a link's destination, same-named files elsewhere)
 	for _, f := range sc.Files {
+		if f.Hardlink != "" {
+			if path == "inplace" {
+				continue // the last-resort route writes into the inode by definition (known finding: it is not atomic either)
+			}
+			// the other name of the old inode keeps the old bytes
+			got, ok := out.Files[f.Name]
+			if !ok || !bytes.Equal(got.Data, old.Data) {
+				add("O12.5", "frame file="+f.Name, fmt.Sprintf("yq -i %s wrote into the file itself: its other hard link %s is now %s (old %s)", target, f.Name, got, old))
+				break
+			}
+			continue
+		}
 		if f.Name == target || f.Name == "-" || f.Missing || f.Dir || f.Symlink != "" {
 			continue
 		}
